@@ -104,7 +104,7 @@ func ExecuteSubscription(p ExecuteParams) chan *Result {
 			if err := recover(); err != nil {
 				e, ok := err.(error)
 				if !ok {
-					return
+					e = fmt.Errorf("%v", err)
 				}
 				send(&Result{
 					Errors: gqlerrors.FormatErrors(e),
